@@ -8,6 +8,7 @@ package seqmodel
 
 import (
 	"fmt"
+	"google.golang.org/protobuf/reflect/protoreflect"
 	"sort"
 	"strings"
 	"time"
@@ -117,10 +118,13 @@ type Opts struct {
 	AllowMissing   bool          `json:"allowMissing,omitempty"`
 	GenID          bool          `json:"genID,omitempty"`
 	IDCallback     bool          `json:"idCallback,omitempty"`
-	CreatedCB      bool          `json:"createdCallback,omitempty"`
-	Before         bool          `json:"interceptBefore,omitempty"`
-	After          bool          `json:"interceptAfter,omitempty"`
-	WriteTime      *time.Time    `json:"writeTime,omitempty"`
+	// IDIntoField (with IDCallback): the id callback also writes the id into this string field of the message that
+	// was handed to the write, the way a model fills in the id of what it creates.
+	IDIntoField string     `json:"idIntoField,omitempty"`
+	CreatedCB   bool       `json:"createdCallback,omitempty"`
+	Before      bool       `json:"interceptBefore,omitempty"`
+	After       bool       `json:"interceptAfter,omitempty"`
+	WriteTime   *time.Time `json:"writeTime,omitempty"`
 }
 
 // Class summarises which options are present, for violation keys and distinct counting.
@@ -143,6 +147,7 @@ func (o Opts) Class() string {
 	add(o.AllowMissing, "allowmiss")
 	add(o.GenID, "genid")
 	add(o.IDCallback, "idcb")
+	add(o.IDIntoField != "", "id-into-msg")
 	add(o.CreatedCB, "createdcb")
 	add(o.Before, "before")
 	add(o.After, "after")
@@ -214,6 +219,8 @@ type Result struct {
 	CreatedCBs int      // calls of the created callback
 	BeforeN    int      // calls of the InterceptBefore function
 	AfterN     int      // calls of the InterceptAfter function
+
+	written proto.Message // the message handed to the write (the id callback may fill in the id)
 }
 
 // Verdict of comparing a real Result with the model.
@@ -473,6 +480,12 @@ func (m *Model) applyWrite(s State, op Op, got Result) (Verdict, State) {
 		return Verdict{Clause: "interceptor-count", Why: fmt.Sprintf("%v succeeded with interceptors run before=%d after=%d times, want %d and %d", op, got.BeforeN, got.AfterN, wb, wa)}, s
 	}
 	v := proto.Clone(op.Val)
+	if generated && o.IDCallback && o.IDIntoField != "" {
+		// the callback wrote the generated id into the message before it was merged
+		if fd := v.ProtoReflect().Descriptor().Fields().ByName(protoreflect.Name(o.IDIntoField)); fd != nil {
+			v.ProtoReflect().Set(fd, protoreflect.ValueOfString(id))
+		}
+	}
 	if o.Before && m.Type.Before != nil {
 		var oldArg proto.Message
 		if old != nil {
